@@ -16,16 +16,16 @@ def o_fir(spec, r, extra):
     if r['ret'] != L: return True, f"{desc}: {sgn(r['ret'], 32)} taps, expected {L}"
     h = r['outs'][1][:L]; sc = max(abs(v) for v in h)
     if any(abs(h[i] - h[L - 1 - i]) > 1e-12 * sc for i in range(L)): return True, f"{desc}: impulse response is not symmetric: {h[:3]}.. vs mirrored {h[::-1][:3]}.."
-    if extra.get('mask'):
+    if (extra or {}).get('mask'):
         ok, txt = mask_ok(h, ft, w1, w2, n)
         if not ok: return True, f"{desc}: {txt}"
     if ft == 0 and abs(sum(h) - 1) > 1e-9: return True, f"{desc}: DC gain {sum(h)!r} instead of 1"
     if ft == 1 and abs(abs(sum((-1) ** i * v for i, v in enumerate(h))) - 1) > 1e-9: return True, f"{desc}: gain at Nyquist {abs(sum((-1) ** i * v for i, v in enumerate(h)))!r} instead of 1"
     return False, 'ok'
-def win_ref(kind, n, sym, p):
+def win_ref(kind, n, sym, p, points=None):
     """closed form, 40 digits; periodic variant = first n points of the symmetric window of length n+1"""
     N = n if sym else n + 1; out = []
-    for i in range(n):
+    for i in (range(n) if points is None else points):
         x = mpmath.mpf(i) / (N - 1) if N > 1 else mpmath.mpf(0)
         if kind == 0: v = 0.5 - 0.5 * mpmath.cos(2 * mpmath.pi * x)
         elif kind == 1: v = mpmath.mpf('0.54') - mpmath.mpf('0.46') * mpmath.cos(2 * mpmath.pi * x)
@@ -48,10 +48,11 @@ def o_window(spec, r, extra):
     desc = f"window::{WK[kind]}({n}" + (f", {p}" if kind in (4, 6, 7) else '') + (", periodic" if not sym else '') + ')'
     if r['status'] != 'ok' or r['ret'] == H_THROW: return True, f"{desc}: {r['status']} / threw"
     if r['ret'] != n: return True, f"{desc}: length {sgn(r['ret'], 32)}"
-    w = r['outs'][0][:n]; ref = win_ref(kind, n, sym, p); tol = extra.get('tol', 1e-12)
+    w = r['outs'][0][:n]; extra = extra or {}; tol = extra.get('tol', 1e-12); pts = extra.get('points') or range(n); ref = dict(zip(pts, win_ref(kind, n, sym, p, pts)))
+    for i in pts:
+        if w[i] != w[i] or abs(w[i] - float(ref[i])) > tol: return True, f"{desc}: w[{i}] = {w[i]!r}, closed form gives {float(ref[i])!r}"
     for i in range(n):
-        if abs(w[i] - float(ref[i])) > tol: return True, f"{desc}: w[{i}] = {w[i]!r}, closed form gives {float(ref[i])!r}"
-        if w[i] < -1e-15 or w[i] > 1 + 1e-15: return True, f"{desc}: w[{i}] = {w[i]!r} outside [0, 1]"
+        if not (-1e-15 <= w[i] <= 1 + 1e-15): return True, f"{desc}: w[{i}] = {w[i]!r} outside [0, 1]"
     if sym and any(abs(w[i] - w[n - 1 - i]) > 0 for i in range(n)): return True, f"{desc}: not symmetric about its centre"
     return False, 'ok'
 ORACLES = {'fir': o_fir, 'window': o_window}
@@ -199,7 +200,21 @@ def job_masks(res, n, ft, cuts):
         if timed_check(sol, res) == z3.unsat: res.ob(True, 'ground', f'{label}: pass-bands within 2 % of unity, stop-bands below 0.02 outside the 4/(n+1) transition regions')
         else: confirm(res, PID, HARNESS, 'h_fir1', spec, 'i32', 'fir', ORACLES, f'fir1:{FT[ft]}:mask', f'{label}: {txt}', extra={'mask': True})
 
-JOBFNS = {'masks': job_masks, 'fir_sym': job_fir_sym, 'fir_reject': job_fir_reject, 'windows': job_windows, 'gauss_sym': job_gauss_sym}
+def job_window_long(res, kind, n, p):
+    """ground obligations at a length beyond 2^16 (index squares reach 2^32): closed form at 64 sampled positions (both ends, the centre, a stride), range [0,1] and mirror symmetry at every position"""
+    mod, so = load(HARNESS); m = Machine(mod, max_steps=600_000_000); wbuf = m.alloc_doubles([0.0] * n, 'w')
+    label = f'window::{WK[kind]}({n}' + (f', {p}' if kind in (4, 6, 7) else '') + ')'
+    try: r = m.call('@h_window', [kind, n, 1, p, wbuf])
+    except (Throw, UB, Budget) as e: res.absorb(m); res.inc(f'{label}: {type(e).__name__} {str(e)[:100]}'); return
+    res.absorb(m); w = m.read_doubles(wbuf, n)
+    pts = sorted(set([0, 1, 2, n // 2 - 1, n // 2, n // 2 + 1, n - 3, n - 2, n - 1] + list(range(0, n, max(n // 55, 1)))))
+    ref = win_ref(kind, n, 1, p, pts)
+    ok = r == n and all(w[i] == w[i] and abs(w[i] - float(e)) <= 1e-12 for i, e in zip(pts, ref)) and all(-1e-15 <= v <= 1 + 1e-15 for v in w) and all(w[i] == w[n - 1 - i] for i in range(n // 2)) and not m.ub_found
+    sol = z3.Solver(); sol.add(z3.Not(z3.BoolVal(bool(ok))))
+    if timed_check(sol, res) == z3.unsat: res.ob(True, 'ground', f'{label}: closed form at {len(pts)} positions, range and symmetry at all {n} positions, no UB')
+    else: confirm(res, PID, HARNESS, 'h_window', [('i32', kind), ('i32', n), ('i32', 1), ('f64', p), ('pf64', [0.0] * n)], 'i32', 'window', ORACLES, f'window:{WK[kind]}:long', f'{label}: closed form / range / symmetry fails at a length above 2^16', extra={'tol': 1e-12, 'points': pts}, timeout=120)
+
+JOBFNS = {'window_long': job_window_long, 'masks': job_masks, 'fir_sym': job_fir_sym, 'fir_reject': job_fir_reject, 'windows': job_windows, 'gauss_sym': job_gauss_sym}
 
 def selftest(st):
     calls = [('h_fir1', [('i32', n), ('f64', 0.3), ('f64', 0.6), ('i32', ft), ('pf64', []), ('i32', 0), ('pf64', [0.0] * 16), ('i32', 16)], 'i32') for n in (4, 7, 10) for ft in range(4)]
@@ -225,6 +240,8 @@ def main(tier, seed):
             if ft < 2: cuts = [(g + (1 - 2 * g) * k / (K - 1), 0.0) for k in range(K)]
             else: cuts = [(a, b) for a in [g + (1 - 3 * g) * k / (K - 1) for k in range(K)] for b in [a + g + (1 - 2 * g - a) * j / 2 for j in range(3)] if b < 1 - g + 1e-12 and b - a >= g - 1e-12]
             if cuts: jobs.append((f'fir1 masks n={n} {FT[ft]}', 'masks', dict(n=n, ft=ft, cuts=cuts), 900))
+    for (kind, n, p) in ([(7, 65537, 0.5), (0, 65537, 0.0)] if q else [(7, 65537, 0.5), (7, 70001, 2.0), (7, 92683, 0.5)] + [(k, 65537, 2.5 if k == 4 else 0.4) for k in range(7)]):
+        jobs.append((f'{WK[kind]} length {n}', 'window_long', dict(kind=kind, n=n, p=p), 1500))
     for n in ((3, 8) if q else (3, 4, 8, 17, 64)): jobs.append((f'gauss symbolic alpha n={n}', 'gauss_sym', dict(n=n), 600))
     return run_property(PID, tier, HARNESS, jobs, JOBFNS,
         level_text='PARTIAL. fir1 (low / high / bandpass / bandstop) with the cut-off(s) symbolic and, optionally, a fully symbolic custom window (sin / cos uninterpreted): tap count n+1 / n+2; h[i] and h[N-i] are the same term for every '
@@ -232,7 +249,7 @@ def main(tier, seed):
                    'Windows: per length / variant / parameter the values computed by the real code equal the 40-digit closed form within 1e-12, lie in [0,1], are mirror-exact, and periodic(n) is bit-identical to the first n points of '
                    'symmetric(n+1); gauss for every alpha: mirror-exact and exp of a non-positive argument.',
         assumptions=['cos(-x) == cos(x) (even), instantiated for mirrored taps of band-pass / band-stop designs', 'window values at concrete lengths / parameters are ground facts (no quantified input): they are checked exhaustively over the stated grid, not by a solver', 'axiom 0 < exp(y) <= 1 for y <= 0'],
-        bounds={'fir1 orders': str(orders), 'window lengths': f'{ns[0]}..{ns[-1]} ({len(ns)} lengths)', 'parameters': 'gauss alpha {0.5, 2.5, 6}, tukey r in [-0.5, 1.5], kaiser beta <= 40'},
+        bounds={'fir1 orders': str(orders), 'window lengths': f'{ns[0]}..{ns[-1]} ({len(ns)} lengths) + kaiser / hann at 65537 (thorough: all windows at 65537, kaiser 70001, 92683)', 'parameters': 'gauss alpha {0.5, 2.5, 6}, tukey r in [-0.5, 1.5], kaiser beta <= 40'},
         outside=['the Hamming-design magnitude masks for cut-offs between the grid points (transcendental in the cut-off: only ground instances on a cut-off grid are checked, from taps computed by the interpreted real code)', 'window lengths above the grid'],
         seed=seed, selftest=selftest)
 
